@@ -540,7 +540,7 @@ func TestVF_C42(t *testing.T) {
 		"downstream = pure function of (tenant, query, timestamp) with series that appear/disappear and 7-minute holes, all data in March 2021; " +
 		"requests are on the step grid unless align-range-with-step is on (then 1/3 are unaligned and the oracle is the direct answer for the step-aligned range, the documented behaviour of that option); " +
 		"oracle: response through the frontend == direct answer (series set, timestamps, values, exact); distinct = history; non-trivial = at least one cache hit happened in the history")
-	n := r.N(500, 8000)
+	n := r.N(400, 8000)
 	r.Require(int64(n)*2, n/3)
 	r.Assume("data does not change and the downstream is deterministic (premise of the property)")
 	r.Assume("with align-range-with-step off only requests whose start and end are multiples of their step are sent (the results cache documents that it assumes step-aligned requests)")
